@@ -110,6 +110,9 @@ class Exchange:
         if customer_ref in self.place_memo:
             rec["reports"] = self.place_memo[customer_ref]["instructionReports"]
             rec["deduplicated"] = True
+            if plan.get("lose_reply"):
+                rec["reply_lost"] = True
+                raise _read_timeout("PLACE")
             return resources.PlaceOrders(**copy.deepcopy(self.place_memo[customer_ref]), elapsed_time=0.01)
         reports = []
         for i, ins in enumerate(instructions):
@@ -254,6 +257,9 @@ class Exchange:
                             "sizeMatched": 0.0,
                             "orderStatus": "EXECUTABLE",
                         }
+                        if async_:
+                            # asked to replace asynchronously: the new bet is reported PENDING, its bet id comes with the order stream
+                            prep = {"status": "SUCCESS", "instruction": _place_instruction_json(pins), "orderStatus": "PENDING"}
                     else:
                         prep = {"status": oc["place"], "instruction": _place_instruction_json(pins), "errorCode": "ERROR_IN_ORDER"}
                         status = "FAILURE"
